@@ -25,3 +25,14 @@ func Use() int {
 func Lambda() func(a, b int) int {
 	return func(a, b int) int { return pair(ints()) }
 }
+
+// conversions to function types are calls whose Fun has a signature type
+type VarFn func(a, b int, o ...Option)
+
+func impl(a, b int, o ...Option) {}
+
+func Convert() VarFn {
+	_ = (func(...Option))(opts)
+	_ = (func(a, b int, o ...Option))(impl)
+	return VarFn(impl)
+}
